@@ -721,8 +721,8 @@ const BINOPS: [&str; 32] = [
     "sla", "sra", "rol", "ror", "+", "-", "&", "*", "/", "mod", "rem", "**",
 ];
 const UNOPS: [&str; 10] = ["-", "+", "abs", "not", "??", "and", "or", "xor", "nand", "nor"];
-const LITS: [&str; 40] = [
-    "0", "1", "42", "1_000", "1e3", "1E+3", "2e0", "1.5", "1.5e-3", "3.14_15", "16#FF#", "2#1010_1010#", "8#77#E1", "16#F.F#", "16#f.f#e-1",
+const LITS: [&str; 43] = [
+    "0", "1", "42", "1_000", "1e3", "1E+3", "2e0", "1.5", "1.5e-3", "3.14_15", "16#FF#", "2#1010_1010#", "8#77#E1", "16#F.F#", "16#f.f#e-1", "16:FF:", "2:1:E3", "16:F.8:",
     "10#1.0#e+2", "x\"AB\"", "B\"1_0\"", "12sb\"01\"", "ux\"f\"", "d\"12\"", "O\"7\"", "8SX\"F\"", "\"\"", "\"abc\"", "\"a\"\"b\"",
     "\"--\"", "'a'", "'''", "'\"'", "'0'", "'1'", "null", "10 ns", "1.5 us", "2 ps", "true", "open", "\"10\"", "1 fs",
 ];
@@ -1312,6 +1312,12 @@ const OPT_TEMPLATES: &[(Wrap, &[Seg])] = &[
     (Wrap::Conc, &[F("g : case x generate when"), O("a1 :"), F("1 | 2 =>"), O("signal y : bit ; begin"), F("s <= a ;"), A(&["", "end ;", "end a1 ;"]), F("when"), O("a2 :"), F("others =>"), O("begin"), F("s <= b ;"), A(&["", "end ;", "end a2 ;"]), F("end generate"), O("g"), F(";")]),
     (Wrap::Conc, &[F("u1 :"), A(&["c", "component c", "entity work . e", "entity work . e ( a )", "configuration work . cfg"]), O("generic map ( n => 1 )"), O("port map ( p => s , q => open )"), F(";")]),
     (Wrap::Conc, &[O("lbl :"), O("postponed"), F("s <="), O("guarded"), A(&["", "transport", "inertial", "reject 1 ns inertial"]), F("a"), O("after 1 ns"), O("when c else b"), F(";")]),
+    (Wrap::Conc, &[O("l :"), O("postponed"), A(&["( a , b )", "<< signal . tb . s : bit >>", "s ( 1 ) . f", "lib . p . s"]), F("<="), O("guarded"), O("transport"), A(&["x", "x after 1 ns", "x after 1 ns when c else y", "x when c else y when d", "x when c else unaffected"]), F(";")]),
+    (Wrap::Conc, &[O("l :"), O("postponed"), F("with x select"), O("?"), A(&["s", "( a , b )", "<< signal . tb . s : bit >>"]), F("<="), O("guarded"), A(&["", "transport", "reject 2 ns inertial"]), F("a after 1 ns when 1 | 2 , b when others ;")]),
+    (Wrap::Decl, &[F("attribute at of"), A(&["'a'", "'a' , 'b'", "x , 'c' , \"+\""]), F(":"), A(&["literal", "signal"]), F("is"), A(&["1", "'1'"]), F(";")]),
+    (Wrap::Decl, &[F("for"), A(&["all", "others", "u1"]), F(": c use"), A(&["open", "entity work . e", "configuration work . cfg"]), F(";"), O("use std . textio . all ;"), O("end for ;"), O("use work . p . all ;")]),
+    (Wrap::Decl, &[F("constant k : t :="), A(&["16:FF:", "2:1:E3", "16:F.8:", "16:F.8:e-1", "10:9:", "16#FF#", "2#1#E3"]), O("+ 8:7:"), O("- 1"), F(";")]),
+    (Wrap::Seq, &[O("lbl :"), F("s <="), A(&["", "transport", "reject 16:A: ns inertial"]), A(&["16:FF:", "x ( 2:1: )"]), O("after 16:1: ns"), F(";")]),
     (Wrap::Conc, &[O("lbl :"), O("postponed"), F("with x select"), O("?"), F("s <="), O("guarded"), O("transport"), F("a when 1 , b"), O("after 1 ns"), F("when others ;")]),
     (Wrap::Conc, &[O("lbl :"), O("postponed"), F("assert c"), O("report \"m\""), O("severity error"), F(";")]),
     (Wrap::Conc, &[O("lbl :"), O("postponed"), A(&["p", "p ( a , b )", "work . pkg . p ( x => a )"]), F(";")]),
@@ -1532,6 +1538,8 @@ fn main() {
             writeln!(model_in, "{}", o.model_in).unwrap();
             !o.verdict.starts_with("SKIP")
         };
+        // in the `opt` family the first variant of every combination has a comment at EVERY token gap
+        let every_gap_first = mode == "opt";
         let mut with_variants = |emit: &mut dyn FnMut(&str) -> bool, rng: &mut Rng, text: &str, k: usize| {
             if !emit(text) {
                 return;
@@ -1545,7 +1553,7 @@ fn main() {
             }
             let Some((pieces, tail)) = cut(&ctx, text, &df) else { return };
             for j in 0..k {
-                let style = if k >= 7 { j % 7 } else { rng.below(7) };
+                let style = if every_gap_first && j == 0 { 1 } else if k >= 7 { j % 7 } else { rng.below(7) };
                 let v = variant(rng, &pieces, &tail, style);
                 emit(&v);
             }
